@@ -15,4 +15,5 @@ Extraction "model.ml" init_state step run get_prev add_entry update_entry escape
   run_serial group_outcomes lin_order call_atomic tally_of
   summary clean_stdout read_summary sumdata_of_result sumread_of strip_ansi
   apply_matchers_snapshot parse
-  valid_script groups_of_script report_of_script unified_of_script read_report report_read_of.
+  valid_script groups_of_script report_of_script unified_of_script read_report report_read_of
+  groups_of_script_n unified_of_script_n report_of_script_n.
